@@ -132,6 +132,10 @@ def dbuf_features(evs):
 
 def run_dbuf(ctx, fam):
     t = ctx.thorough()
+    extra = {}
+    if ctx.prop == 'C04':
+        log('[C04] unbounded arithmetic of the shrink policy (Apalache, inductive invariant of DecoderRetain.tla)')
+        extra['apalache_inductive_invariant'] = vlib.apalache_inductive(ctx, 'DecoderRetain.tla')
     log('[%s] design model check (DecoderBufImpl refines DecoderBuf envelope)' % ctx.prop)
     vlib.tlc_mc(ctx, 'DecoderBufMC.tla', 'DecoderBufMC_T.cfg' if t else 'DecoderBufMC.cfg', workers='16')
     scripts = []
@@ -146,7 +150,7 @@ def run_dbuf(ctx, fam):
         scripts.append(ops_to_script('dbuf-walk-%d-%d' % (ctx.seed, i), 'dbuf', ops, ['tlc-walk']))
     scripts += vlib.go_gen(ctx, 'dbuf', 3000 if t else 400, ctx.seed)
     scripts += corpus_scripts('dbuf')
-    return finish(ctx, fam, scripts, 'DecoderBuf_Trace', dbuf_mutants, dbuf_features)
+    return finish(ctx, fam, scripts, 'DecoderBuf_Trace', dbuf_mutants, dbuf_features, extra_cov=extra)
 
 
 def finish(ctx, fam, scripts, trace_module, mutants, features, trace_cfg=None, extra_env=None,
